@@ -138,6 +138,25 @@ def one(chk, P, name):
     okc = [b['marker'] for b in P.branches] == order and all(b['op'] == 'LtE' and b['lhs'] == f'{Hn["rnd"]}[{P.i_c}]' for b in P.branches)
     chk.check(okc, 'C09-R2', GH, name, 'if/elif chain randoms[i] <= LRG, ELG, QSO marker', '',
               f'decision chain {[(b["lhs"], b["op"], b["marker"]) for b in P.branches]}', node=P.decision)
+    # a tracer that is switched off has a slice of width zero [m, m]: with the closed comparison r <= m the value r == m (r = 0.0 for
+    # the first tracer) would still select it, so each branch is guarded by its tracer's flag (or compares strictly)
+    # An EMPTY slice selects no host.  A slice is empty when its tracer is switched off, and also when the tracer is on but its mean
+    # occupation at this host is exactly 0 (N_sat below kappa*M_cut, a saturated erf, ic = 0, a zero weight): marker_T == marker_{T-1}.
+    # With the closed comparison r <= marker_T the stored random r == marker_{T-1} (r = 0.0 for the first tracer) would still select T
+    # and take the host away from the next tracer.  Each branch therefore tests that its slice is non-empty: marker_T > marker_{T-1}
+    # (marker_first > 0); the want_T flag alone covers only the switched-off case (F21), not the zero-occupation case (F36).
+    prev = None
+    for b in P.branches:
+        T = tracer_of(b['marker'])
+        need = f"{b['marker']}>{prev if prev is not None else '0'}"
+        alt = f"{prev if prev is not None else '0'}<{b['marker']}"
+        okz = need in b.get('extra', []) or alt in b.get('extra', [])
+        chk.check(okz, 'C09-R2', GH, name, f'{T}: an empty slice selects no host (branch tests {need})',
+                  f'guards {b.get("guard")}, {b.get("extra")}',
+                  f'branch "{unparse(b["node"].test)[:70]}": when the {T} slice is empty at this host (tracer off, or on with mean occupation exactly 0) {b["marker"]} equals '
+                  f'{prev if prev is not None else 0}, and a host whose stored random is exactly that value (0.0 occurs in float32 randoms) is given to {T}: the next tracer loses its galaxy',
+                  node=b['node'], nontrivial=False)
+        prev = b['marker']
     # ---- R1 bijection
     table = {}
     for b in P.branches:
